@@ -827,6 +827,9 @@ register_function(in_interval, "in", (Number, Interval))
 def interval_eq(I1, I2):
     return dispatch("==", (I1.a, I2.a)) * dispatch("==", (I1.b, I2.b))
 register_function(interval_eq, "==", (Interval, Interval))
+def interval_neq(I1, I2):
+    return 1 - interval_eq(I1, I2)
+register_function(interval_neq, "!=", (Interval, Interval))
 
 register_function(interval_get_lower, "lower", (Interval,),
                   "Get the lower bound of an interval.")
